@@ -181,3 +181,8 @@ def t_scaling(sess, n_grains, phase, fabric, regime):
     if not reached:
         sess.reach.append(type("Q", (), {"name": f"{tag}: reach", "verdict": "unknown", "secs": 0.0})())
     sample(sess, obligation="rate scaling", config=tag, paths=len(paths))
+
+
+def default_cex(name):
+    """Generic public-API replay for verdicts that carry no more specific counterexample."""
+    return {"replay": "vf.props.replays:c05_rates", "case": {}, "cls": {"kind": "texture depends on the strain rate"}}
